@@ -50,9 +50,9 @@ def run_check(pid, tier, seed):
             try:
                 functions.append(extract.info(k["where"]))
                 stats.append(eng.verify(short))
-                if k.get("relational"):
+                if k.get("relational") or k.get("relational_converse"):
                     from pvc import relational
-                    smt_obls += relational.pair_obligations(eng, short, k["relational"], converse=k.get("relational_converse"))
+                    smt_obls += relational.pair_obligations(eng, short, k.get("relational") or {}, converse=k.get("relational_converse"))
             except extract.NotFound as e:
                 results.append(Result(f"{short}/function-exists", "exists", "undecided", short, 0, detail={"error": str(e)}))
             except Unsupported as e:
